@@ -27,6 +27,8 @@ pub struct Cubic {
 
     // Remote window. Limits the window size
     rwnd: f64,
+    // The same in bytes, exactly as advertised.
+    rwnd_bytes: usize,
 }
 
 impl core::fmt::Debug for Cubic {
@@ -61,6 +63,7 @@ impl Cubic {
             last_congestion_event: now,
 
             rwnd: 0.,
+            rwnd_bytes: 0,
             mss,
         }
     }
@@ -68,7 +71,9 @@ impl Cubic {
 
 impl CongestionController for Cubic {
     fn window(&self) -> usize {
-        (self.cwnd.max(2.).min(self.rwnd) * self.mss as f64) as usize
+        // Clamp to the peer's window in bytes: going through MSS units and back may be off by a
+        // byte (f64 rounding), and the unit changes when the MSS does.
+        ((self.cwnd.max(2.) * self.mss as f64) as usize).min(self.rwnd_bytes)
     }
 
     fn sshthresh(&self) -> usize {
@@ -137,7 +142,8 @@ impl CongestionController for Cubic {
     }
 
     fn set_remote_window(&mut self, win: usize) {
-        self.rwnd = win as f64 / self.mss as f64
+        self.rwnd = win as f64 / self.mss as f64;
+        self.rwnd_bytes = win;
     }
 
     fn smss(&self) -> usize {
